@@ -100,7 +100,7 @@ class KaniCheck:
         self.support_src = support_src
         self.crate_attrs = list(crate_attrs)
         self.kani_flags = list(kani_flags)
-        self.harness_timeout = harness_timeout or (120 if tier == "quick" else 900)
+        self.harness_timeout = harness_timeout or (900 if tier == "quick" else 1800)
         self.jobs = jobs or common.NCPU
         self.extra_files = extra_files or {}
         self.dir = None
